@@ -221,6 +221,8 @@ class LoopSpec:
         for j, g in enumerate(goals0):
             path.oblige(oid(f"{self.name} / init #{j}"), g, kind="inv-init")
         modified = [m for m in self.assigned_names(st.body) if fr.lookup(m)[0]]
+        # objects mutated in place (x[k] = v) are havocked when the sidecar declares a shape for them
+        modified += [m for m in self.havoc if m != "__mutated__" and m not in modified and fr.lookup(m)[0]]
         target_names = [m.id for m in ast.walk(st.target) if isinstance(m, ast.Name)]
         mutated = self.havoc.get("__mutated__")
         # havoc
@@ -652,6 +654,8 @@ def make_parent_frame(ip, src, fi):
 def case_product(cases: dict[str, list]) -> list[dict]:
     if not cases:
         return [{}]
+    if "__combos__" in cases:
+        return [dict(cb) for cb in cases["__combos__"]]
     keys = list(cases)
     return [dict(zip(keys, combo)) for combo in itertools.product(*[cases[k] for k in keys])]
 
@@ -662,8 +666,17 @@ def case_name(case: dict) -> str:
     return ",".join(f"{k}={v}" for k, v in case.items())
 
 
+def list_cases(ct: Contract) -> list[str]:
+    out = []
+    for case in case_product(ct.cases):
+        if ct.skip_cases is not None and ct.skip_cases(case):
+            continue
+        out.append(case_name(case))
+    return out
+
+
 def verify_function(src, registry: Registry, schema_factory, models, ct: Contract, max_paths=4000,
-                    solver_timeout_ms=2000) -> FunctionReport:
+                    solver_timeout_ms=2000, only_cases: set | None = None) -> FunctionReport:
     rep = FunctionReport(ct.key, ct.props)
     t0 = time.time()
     if ct.trusted:
@@ -680,8 +693,10 @@ def verify_function(src, registry: Registry, schema_factory, models, ct: Contrac
     for case in case_product(ct.cases):
         if ct.skip_cases is not None and ct.skip_cases(case):
             continue
-        rep.cases += 1
         cname = case_name(case)
+        if only_cases is not None and cname not in only_cases:
+            continue
+        rep.cases += 1
 
         def run_one(path: Path, case=case, cname=cname):
             schema = schema_factory()
